@@ -10,6 +10,8 @@ Case grammar (see harness/C05.cpp, ocaml/C05_driver.ml); a matrix is a table `ro
     references kept by the caller (both forms of history):  hold h i (std::vector<double>& r_h = M[i]) | holde h i j (double& e_h = M[i][j])
       taken at one time and written through later, between two queries and without any member call:
       hset h j v (r_h[j] = v) | hswap h1 h2 (std::swap(r_h1, r_h2)) | hrow h l (r_h = l) | eset h v (e_h = v)
+    another facility of the library called in between, on an argument B of its own (the object is not involved; the model keeps the entries):
+      lib eigensystem|eigenvectors|eigenvalues|qr|rotation|outer B
     output: per query `D x x'` / `F b b'` / `X M.. M..` = the object's answer and the answer of a new object built from the
     object's current entries; `U` per update.  A call that terminates the process makes the whole case EXIT.
   hist m A_1 .. A_m k (obj step)_1 .. (obj step)_k   a call history on m objects (fixed storage each), calls interleaved, and NOTHING
@@ -18,7 +20,8 @@ Case grammar (see harness/C05.cpp, ocaml/C05_driver.ml); a matrix is a table `ro
     storage) | copyinvertible | copyinverse (the query on a copy).  Output: `D x` / `F b` / `X M..` / `U`; the reference is the
     model (mrun) and the clauses evaluated on the entries the object has at that call.
 The reference in S4 is exact rational arithmetic (fractions.Fraction) on the double-valued input, normalised by the power of two
-of its largest entry so that every clause is evaluated the same way at every scale (entries * 2^k, |k| <= 900).
+of its largest entry so that every clause is evaluated the same way at every scale (entries * 2^k, |k| <= 900).  Matrices whose
+columns are in units more than 2^40 apart (M = B*diag(2^c_j)) get the accuracy clauses of Inverse also for (B, diag(2^c_j)*X).
 """
 import math, itertools, functools
 from fractions import Fraction
@@ -36,8 +39,9 @@ DET_SLACK = 64 * EPS
 # pivoting has forward error c(n)*growth*kappa*eps with growth ~ 1..n in practice): with kappa = ||M||_F ||M^-1||_F
 #   ||X - M^-1||_F <= C_INV*n*kappa*eps*||M^-1||_F,  ||X*M - 1||_F <= C_INV*n*kappa*eps,  ||M*X - 1||_F <= C_INV*n*kappa^2*eps.
 C_INV = 64.0
+COLUNIT_SPREAD = 40      # binary orders between the units of two columns above which the accuracy clauses are (also) evaluated with the units taken out
 RULE = ("one case = one call of Determinant / Invertible / Inverse (or a determinant law on two calls, or a call history of 3..12 calls on "
-        "one object, or interleaved on up to three objects, the updates made by member calls or through references to rows / entries that the caller took earlier); non-trivial = the matrix has a zero or tiny (< 1e-8*||M||^k for the k-th) leading principal minor, or a condition "
+        "one object, or interleaved on up to three objects, the updates made by member calls or through references to rows / entries that the caller took earlier, calls of other facilities of the library in between); non-trivial = the matrix has a zero or tiny (< 1e-8*||M||^k for the k-th) leading principal minor, or a condition "
         "number above 1e4, or is non-square / exactly singular (guard exercised), or its determinant leaves the normal double range, or "
         "the case is a call history; distinct by case text")
 LEVEL_TEXT = ("Theorems (Coq/MathComp, every size, every field): the model's Laplace determinant is the determinant (\\det), hence multiplicative, "
@@ -55,6 +59,11 @@ LEVEL_TEXT = ("Theorems (Coq/MathComp, every size, every field): the model's Lap
               "Orthogonal() (the library's own caller of the Invertible()/Inverse() gate): answer true => M^T M = 1 = M M^T for every pivoting rule "
               "(C05_orthogonal_sound), non-square => false, and with the code's pivoting rule it never exits on a square matrix and decides M^T M = 1 "
               "(C05_orthogonal_iff). "
+              "Pivot search of Inverse() (real field): for every work array and column it selects a row at or below the diagonal with an entry of maximal absolute value "
+              "(C05_pivot_row_maximal, at every magnitude: nothing is multiplied in the search), and the selection does not depend on the unit of the column "
+              "(C05_pivot_row_unit_free: column times any d != 0 gives the same row; C05_pivot_row_example); in floating point this is checked by S4 on matrices whose row exchange matters, "
+              "as a whole at the entry exponents where products of 2..7 entries over-/underflow and with single columns in such units (there the accuracy clauses are evaluated with the "
+              "power-of-two column units taken out, which changes no comparison and no rounding of the elimination inside the double range). "
               "NOT a theorem: the floating-point accuracy clause for Inverse (c*n*kappa*eps, backward stability of Gauss-Jordan with partial pivoting) - it is "
               "checked in S4 against the exact rational inverse of the double-valued input; likewise Orthogonal() in floating point is only compared with the model. "
               "Call histories on one object: for every arithmetic the model's answer depends on the current "
@@ -62,7 +71,10 @@ LEVEL_TEXT = ("Theorems (Coq/MathComp, every size, every field): the model's Lap
               "in exact arithmetic, after any history, M += B / M -= B gives det(A +- B) (C05_seq_det_after_update), std::swap(M[i], M[j]) flips the sign of Determinant() and "
               "keeps Invertible() (C05_seq_det_after_swap), M[i][j] = v gives det A + (v - a_ij) cofactor_ij (C05_seq_det_after_set); "
               "that the implementation has no other state is checked by correspondence and by the S4 clause "
-              "'history' (object's answer = answer of a new object with the same entries, bit for bit). Known findings K-C05-1/-2 (see "
+              "'history' (object's answer = answer of a new object with the same entries, bit for bit). "
+              "C05 requests made after calls of OTHER facilities of the library in the same process (Eigensystem, Eigenvectors, Eigenvalues, QR_Decomposition, Rotation_Matrix, "
+              "Outer_Vector_Product; history step 'lib'): that such calls leave nothing behind that changes a later answer or its exit status is not a theorem (the model has no such state) - it is checked by "
+              "correspondence and S4 on singular (integer with rounding residue, duplicate / dependent rows, generic entries) and regular matrices. Known findings K-C05-1/-2 (see "
               "known_findings.d/C05.json) are properties of floating-point evaluation (overflow / underflow, i.e. outside the standard-model premise), outside the theorems. "
               "The Gallina model is extracted and run against libphysica on every run (bit-identical).")
 LEVEL_NOTE = ("Coq 8.16.1 + MathComp 1.15 (+ algebra-tactics ring, mczify lia in the rounding proofs), axiom-free; hand-written model (coq/C05_Model.v, uses coq/C04_Model.v) tied by differential correspondence; "
@@ -148,7 +160,18 @@ class Ctx:
         s.AF = [[(Fraction(x) * sc if math.isfinite(x) else Fraction(0)) for x in r] for r in A]
         s.ds, s.invs = exact(key(s.AF))
         s.Af = [[float(x) for x in r] for r in s.AF]
-        s.perm = perm_abs(s.Af); s.relb = DET_SLACK * s.perm
+        # per-column units: 2^cs[j] = the power of two of the largest entry of column j relative to the largest entry (cs[j] <= 0)
+        cm = [max([abs(A[i][j]) for i in range(n) if j < len(A[i]) and math.isfinite(A[i][j])] or [0.0]) for j in range(n)]
+        s.cs = [(math.frexp(m)[1] - s.e if m else 0) for m in cm]
+        s.colspread = -min(s.cs) if s.cs else 0
+        if s.colspread <= 60:
+            s.perm = perm_abs(s.Af); s.relb = DET_SLACK * s.perm; s.relbF = Fraction(s.relb)
+        else:
+            # columns in very different units: the n! products are formed on the matrix with every column normalised (no underflow
+            # of the float sum), the units are put back exactly
+            Aeq = [[float(s.AF[i][j] * pow2(-s.cs[j])) for j in range(n)] for i in range(n)]
+            s.relbF = Fraction(DET_SLACK * perm_abs(Aeq)) * pow2(sum(s.cs))
+            s.relb = float(s.relbF); s.perm = s.relb / DET_SLACK
         s.d = s.ds * pow2(s.e * n)
         s.amax = Fraction(amax)
         nz = [abs(x) for r in A for x in r if x != 0 and math.isfinite(x)]
@@ -159,9 +182,9 @@ class Ctx:
         s.underflow_possible = any(amin ** k < pow2(-1021) for k in range(1, n + 1))
         # each of the at most n!*n operations may lose up to one quantum 2^-1074 to underflow, amplified by at most n-1 further factors
         s.uf = nf * n * pow2(-1074) * max(Fraction(1), s.amax) ** max(0, n - 1)
-        s.bound = Fraction(s.relb) * pow2(s.e * n) + s.uf       # |Determinant() - d| allowed
+        s.bound = s.relbF * pow2(s.e * n) + s.uf       # |Determinant() - d| allowed
         s.singular = s.invs is None
-        s.near_singular = (not s.singular) and abs(s.ds) <= Fraction(4 * s.relb)     # not distinguishable from singular at working precision (scale-free)
+        s.near_singular = (not s.singular) and abs(s.ds) <= 4 * s.relbF     # not distinguishable from singular at working precision (scale-free)
         s.kappa = math.inf if s.singular else fsqrt(fro2(s.AF) * fro2(s.invs))
         s.det_subnormal = (not s.singular) and abs(s.d) < DBL_MIN_NORMAL
         # the exact determinant lies below twice the underflow allowance of the Laplace sum: Determinant() may legitimately be 0
@@ -508,6 +531,83 @@ def scaled_variant(rng, A, et=None):
     return scale_mat(A, k), k
 
 
+# ---- the pivot search (and every other comparison / product of entries) at the ends of the double range
+# binary exponents E at which a product of k = 2..7 entries of size 2^E crosses a limit of the double range (2^1024 overflow, 2^-1022
+# smallest normal number, 2^-1074 smallest subnormal), with a geometric ladder of offsets on both sides of each, and far beyond
+def _entry_exponents():
+    out = {}
+    for k in range(2, 8):
+        es = set()
+        for lim in (1024, -1022, -1074):
+            for off in (0, 1, 2, 4, 8, 16, 32, 64):
+                for sg in (-1, 1): es.add(round(lim / k) + sg * off)
+        if k == 2: es.update([-900, -800, -700, -600, 600, 700, 800, 900])
+        out[k] = sorted(e for e in es if abs(e) <= MAX_SCALE_EXP)
+    return out
+
+
+ENTRY_EXPONENTS = _entry_exponents()
+# relative size of a diagonal entry to the entries below it, continued far below the rounding level (the entry is still not zero)
+PIVOT_RATIOS_WIDE = PIVOT_RATIOS[8:] + [1e-20, 1e-24, 1e-30, 1e-45, 1e-60, 1e-90]
+
+
+def entry_exponent(rng):
+    k = rng.choice([2, 2, 2, 2, 3, 4, 5, 6, 7])          # a comparison or product of two entries is the commonest pattern
+    return rng.choice(ENTRY_EXPONENTS[k])
+
+
+def gen_pivot_sensitive(rng, n):
+    """(matrix, family): a safely regular matrix (condition number below 1e8) with entries of magnitude ~1 on which the row exchange
+    decides the accuracy: the growth-factor shapes, and dense matrices whose diagonal entries (the first one above all) are a factor
+    r below the entries under them - r on the wide ladder, or exactly zero"""
+    for _ in range(50):
+        w = rng.random()
+        if w < 0.25: A, fam = gen_growth(rng, n), "growth"
+        elif w < 0.45: A, fam = gen_growth(rng, n, ratio=rng.choice(PIVOT_RATIOS_WIDE), plain=True), "growth"
+        else:
+            A = gen_matrix(rng, n, rng.choice(["dense", "dense", "symmetric", "graded"])); fam = "small-diagonal"
+            cols = [c for c in range(n - 1) if c == 0 and rng.random() < 0.8 or rng.random() < 0.3] or [0]
+            for c in cols:
+                r = rng.choice(PIVOT_RATIOS_WIDE + [0.0, 0.0])
+                A[c][c] = rng.choice([-1.0, 1.0]) * r * max(abs(A[i][c]) for i in range(c + 1, n)) * rng.uniform(0.5, 1)
+        c = ctx_of(A)
+        if safe_for_inverse(A) and c.kappa < 1e8: return A, fam
+    return gen_matrix(rng, n, "dense"), "dense"
+
+
+def at_entry_exponent(rng, A, E):
+    """A * 2^k, k such that the largest (or the smallest non-zero) entry gets the binary exponent E; every entry stays inside 2^+-1000"""
+    nz = [abs(x) for r in A for x in r if x != 0]
+    hi, lo = math.frexp(max(nz))[1], math.frexp(min(nz))[1]
+    k = E - (hi if rng.random() < 0.5 else lo)
+    k = max(-1000 - lo, min(1000 - hi, k)); k = max(-MAX_SCALE_EXP, min(MAX_SCALE_EXP, k))
+    return scale_mat(A, k), k
+
+
+def col_units(rng, B):
+    """B * diag(2^c_j): one column (the first, mostly) is put at an exponent of the ladder, the others stay, compensate (the
+    determinant keeps its size), follow half way, or (c < 0) bring the determinant into the subnormal range.  No product of
+    entries from different columns leaves the double range on the way except, in the last mode, the full products"""
+    n = len(B); cb = ctx_of(B)
+    t = 0 if rng.random() < 0.6 else rng.randrange(n)
+    E = entry_exponent(rng)
+    while abs(E) < 100: E = entry_exponent(rng)
+    ct = E - math.frexp(max(abs(B[i][t]) for i in range(n)) or 1.0)[1]
+    mode = rng.choice(["stay", "stay", "compensate", "half", "subnormal-det"])
+    if mode == "subnormal-det" and ct > 0: mode = "compensate"
+    if mode == "stay": o = 0
+    elif mode == "compensate": o = -round(ct / (n - 1))
+    elif mode == "half": o = round(ct / 2)
+    else:
+        ld = math.frexp(cb.fl(abs(cb.ds)))[1] + cb.e * n
+        o = round((rng.choice([-1072, -1070, -1065, -1060, -1050, -1040, -1030, -1024]) - ct - ld) / (n - 1))
+    cs = [ct if j == t else o for j in range(n)]
+    neg = sorted(c for c in cs if c < 0); pos = sorted(c for c in cs if c > 0)
+    low = sum(neg) - (0 if mode != "subnormal-det" or len(neg) < 2 else neg[-1])        # the lowest product of entries of distinct columns (proper subsets in the last mode)
+    if low < -1000 + 12 * n or sum(pos) > 1000 - 12 * n or any(abs(c) > MAX_SCALE_EXP for c in cs): cs = [ct if j == t else 0 for j in range(n)]
+    return [[math.ldexp(B[i][j], cs[j]) for j in range(n)] for i in range(n)], cs, mode
+
+
 def inv_case(A, kind, extra_tags=()):
     n = len(A); tol = None
     if all(len(r) == n for r in A):
@@ -515,6 +615,7 @@ def inv_case(A, kind, extra_tags=()):
         if not c.singular and math.isfinite(c.kappa):
             xm = c.fl(max(abs(x) for r in c.invs for x in r) * pow2(-c.e))
             tol = (1e-9, C_INV * n * c.kappa * EPS * xm)
+            if not math.isfinite(tol[1]): tol = None
     return Case(f"inverse {mtab(A)}", ("inverse", kind, f"n={n}") + tuple(extra_tags), tol=tol)
 
 
@@ -529,10 +630,12 @@ def det_tol(A):
 # is not disturbed by the probe; the reference there is the model and the clauses)
 QUERIES = ["det", "det", "invertible", "inverse", "orthogonal", "copydet", "transdet", "subdet"]
 PURE_QUERIES = QUERIES + ["invertible", "inverse", "copyinvertible", "copyinverse"]
-UPDATES = ["add", "add", "sub", "sub", "set", "set", "setrow", "swap", "swap", "assignm", "assign", "resize", "delrow+delcol", "add-singular", "add-regular", "add-zero"]
+UPDATES = ["add", "add", "sub", "sub", "set", "set", "setrow", "swap", "swap", "assignm", "assign", "resize", "delrow+delcol", "add-singular", "add-regular", "add-zero", "lib"]
 QUERY_ALIAS = {"copyinvertible": "invertible", "copyinverse": "inverse"}
 REF_WORDS = ("hold", "holde", "hset", "hswap", "hrow", "eset")
-UPDATE_WORDS = ("add", "sub", "set", "swap", "assignm", "renew", "assign", "resize", "delrow", "delcol") + REF_WORDS
+UPDATE_WORDS = ("add", "sub", "set", "swap", "assignm", "renew", "assign", "resize", "delrow", "delcol", "lib") + REF_WORDS
+# other facilities of the library (Linear_Algebra.cpp) called between two calls of a history, on an argument of their own
+LIB_FACILITIES = ["eigensystem", "eigensystem", "eigenvectors", "eigenvectors", "eigenvalues", "qr", "rotation", "outer"]
 
 
 def sim_update(A, st):
@@ -552,6 +655,7 @@ def sim_update(A, st):
         if i >= m or j >= m: return None
         R = [list(r) for r in A]; R[i], R[j] = R[j], R[i]; return R
     if op in ("assignm", "renew"): return [list(r) for r in st[1]]
+    if op == "lib": return [list(r) for r in A] if m >= 1 else None          # the object is not involved (generated only for objects with >= 1 row)
     if op == "assign": return [[st[3]] * st[2] for _ in range(st[1])]
     if op == "resize":
         r, c = st[1:]
@@ -596,7 +700,7 @@ def sim_refs(A, H, st):
     nxt = sim_update(A, st)
     if nxt is None: return None, H
     if op in ("add", "sub", "set"): return nxt, H
-    if op in ("swap", "delcol"): return nxt, rows_only()
+    if op in ("swap", "delcol", "lib"): return nxt, rows_only()
     if op in ("resize", "assign"): return nxt, (rows_only(lambda i: i < st[1]) if st[1] <= m else {})
     if op == "delrow": return nxt, rows_only(lambda i: i < st[1])
     return nxt, {}
@@ -608,6 +712,7 @@ def step_text(st):
     if op == "eset": return f"eset {st[1]} {hx(st[2])}"
     if op == "hrow": return f"hrow {st[1]} {flist(st[2])}"
     if op in ("add", "sub", "assignm", "renew"): return f"{op} {mtab(st[1])}"
+    if op == "lib": return f"lib {st[1]} {mtab(st[2])}"
     if op in ("set", "assign"): return f"{op} {st[1]} {st[2]} {hx(st[3])}"
     return " ".join([op] + [str(x) for x in st[1:]])
 
@@ -618,7 +723,7 @@ def is_square(A): return len(A) > 0 and all(len(r) == len(A) for r in A)
 def safe_for_inverse(A):
     if not is_square(A): return False
     c = ctx_of(A)
-    return (not c.singular) and abs(c.ds) > Fraction(1e3 * c.relb)
+    return (not c.singular) and abs(c.ds) > 1000 * c.relbF
 
 
 class Obj:
@@ -693,6 +798,17 @@ class Obj:
         if q in ("det", "copydet", "transdet") and not sq: q = "invertible"
         return (q,)
 
+    def lib_step(s):
+        """another facility of the library runs on an argument of its own: a symmetric, strictly diagonally dominant matrix of small
+        integers with distinct diagonal entries (size 2..4), on which the eigen-solvers and the QR decomposition are defined"""
+        rng = s.rng; k = rng.randint(2, 4)
+        dg = rng.sample([4, 7, 11, 16, 22, 29], k)
+        B = [[0.0] * k for _ in range(k)]
+        for i in range(k):
+            B[i][i] = float(dg[i])
+            for j in range(i + 1, k): B[i][j] = B[j][i] = float(rng.choice([0, 1, 1, -1]))
+        return ("lib", rng.choice(LIB_FACILITIES), B)
+
     def replace(s, B):
         """the object gets the entries B wholesale: copy assignment, or (pure) a new object in the same storage"""
         return [("renew" if s.pure and s.rng.random() < 0.4 else "assignm", B)]
@@ -701,6 +817,7 @@ class Obj:
         rng = s.rng; cur = s.cur; n = s.n
         u = rng.choice(UPDATES); m = len(cur); nc = len(cur[0]) if cur else 0
         if m == 0 or nc == 0 or m != nc: return s.replace(s.new_mat(max(1, n)))
+        if u == "lib": return [s.lib_step()]
         if u in ("add", "sub"): return [(u, s.new_mat(m))]
         if u == "add-zero": return [(rng.choice(["add", "sub"]), [[0.0] * m for _ in range(m)])]
         if u in ("add-singular", "add-regular"):
@@ -781,6 +898,7 @@ class Obj:
         for f in range(flips):
             for _ in range(rng.choice([1, 1, 2])): s.push(s.query(reg_q))
             for st in s.route_to(T): s.push(st)
+            if rng.random() < 0.35 and len(s.cur) >= 1: s.push(s.lib_step())      # another facility runs before the object is asked again
             q = rng.choice(sing_q)
             s.push((q,))
             if QUERY_ALIAS.get(q, q) == "inverse": return True          # this call has to terminate (or may, K-C05-1)
@@ -863,6 +981,24 @@ def gen_hist(rng, n):
     return hist_case(objs, order, tags)
 
 
+def gen_after_lib(rng, n):
+    """C05 requests made AFTER calls of other facilities of the library in the same process and nothing else (`hist`): 1..3 such
+    calls, then Determinant / Invertible / Inverse / Orthogonal on an object that was not touched - exactly singular (small integers
+    whose elimination leaves a rounding residue, duplicate / dependent rows, zero row, generic entries, graph Laplacians) or regular"""
+    n = max(2, n); w = rng.random()
+    kind = rng.choice(["rank-deficient-combo", "rank-deficient-combo", "rank-deficient", "rank-deficient-real", "laplacian", "block"]) if w < 0.7 else rng.choice(["dense-int", "dense", "signed-perm", "zero-minor", "symmetric"])
+    o = Obj(rng, n, kind, pure=True, refs=False)
+    if rng.random() < 0.3: o.push(o.query(["det", "invertible"]))
+    for _ in range(rng.choice([1, 1, 2, 3])): o.push(o.lib_step())
+    sing = is_square(o.cur) and ctx_of(o.cur).singular
+    q = rng.choice(["inverse", "inverse", "copyinverse", "invertible", "det", "orthogonal"])
+    if not sing and q in ("inverse", "copyinverse", "orthogonal") and not safe_for_inverse(o.cur): q = "invertible"
+    o.push((q,))
+    may_exit = exit_status(o.cur, (q,)) is not None
+    if not may_exit and rng.random() < 0.5: o.push(o.query())
+    return hist_case([o], [(0, st) for st in o.steps], ["hist", "objects=1", "after-other-facility", kind, f"n={o.n}"] + (["last-call-may-exit"] if may_exit else []))
+
+
 def gen_flip(rng, n, pure):
     """regular <-> singular in place (see Obj.flip_chain), as `seq` (with probes) or as `hist` among 1..3 objects"""
     n = max(2, n)
@@ -930,6 +1066,9 @@ def generate(rng, tier):
             cs.append(gen_hist(rng, n))
             for _ in range(2): cs.append(gen_flip(rng, n, pure=True))
             if rng.random() < 0.5: cs.append(gen_flip(rng, n, pure=False))
+    # C05 requests after calls of other facilities of the library in the same process
+    for n in range(2, 8):
+        for _ in range((60 if big else 12) * (2 if n <= 4 else 1)): cs.append(gen_after_lib(rng, n))
     # reducible matrices with exact ties (singular and regular), every size
     for n in range(2, 8):
         for _ in range(40 if big else 8):
@@ -945,6 +1084,24 @@ def generate(rng, tier):
     for n in ((4, 5, 6, 7) if big else (6, 7)):          # the whole ladder, rung by rung, at the sizes where the growth compounds
         for r in PIVOT_RATIOS:
             for _ in range(3 if big else 1): cs.append(inv_case(gen_growth(rng, n, ratio=r, plain=True), "growth", (f"ratio={r:g}",)))
+    # the pivot search at the ends of the double range: matrices on which the row exchange matters, (a) as a whole at the entry
+    # exponents where products of 2..7 entries overflow / underflow, (b) with one column in such a unit and the others not
+    for n in range(2, 8):
+        for t in range(40 if big else 8):
+            B, fam = gen_pivot_sensitive(rng, n)
+            E = entry_exponent(rng)
+            if n * E < -1040: E = -E          # as a whole only where the determinant does not underflow (K-C05-2)
+            A, k = at_entry_exponent(rng, B, E)
+            tg = ("pivot-at-scale", f"scale=2^{100 * round(k / 100)}")
+            cs.append(inv_case(A, fam, tg))
+            cs.append(Case(f"invertible {mtab(A)}", ("invertible", fam) + tg, tol=det_tol(A)))
+        for t in range(50 if big else 10):
+            B, fam = gen_pivot_sensitive(rng, n) if rng.random() < 0.8 else (gen_matrix(rng, n, "dense"), "dense")
+            A, units, mode = col_units(rng, B)
+            tg = ("column-units", mode)
+            cs.append(inv_case(A, fam, tg))
+            cs.append(Case(f"invertible {mtab(A)}", ("invertible", fam) + tg, tol=det_tol(A)))
+            if t % 3 == 0: cs.append(Case(f"det {mtab(A)}", ("det", fam, f"n={n}") + tg, tol=det_tol(A)))
     # the witnesses of the defects fixed earlier, and hand-picked pivoting situations
     for A in ([[0.0, 1.0], [1.0, 0.0]], [[1e-20, 1.0], [1.0, 1.0]], [[0.0, 0.0, 1.0], [0.0, 1.0, 0.0], [1.0, 0.0, 0.0]],
               [[1.0, 2.0, 3.0], [2.0, 4.0, 6.0], [1.0, 0.0, 1.0]], [[1.0, 1.0], [1.0, 1.0]], [[0.0]], [[5.0]], [[-0.0]],
@@ -978,6 +1135,7 @@ class Rd:
     def step(s):
         w = s.word()
         if w in ("add", "sub", "assignm", "renew"): return (w, s.table())
+        if w == "lib": return (w, s.word(), s.table())
         if w in ("set", "assign"): return (w, s.int(), s.int(), s.num())
         if w in ("swap", "resize", "subdet", "hold", "hswap"): return (w, s.int(), s.int())
         if w == "holde": return (w, s.int(), s.int(), s.int())
@@ -1072,9 +1230,31 @@ def clause_inverse(A, ex, X):
     left = fro2([[sum(XF[i][t] * AF[t][j] for t in range(n)) - (i == j) for j in range(n)] for i in range(n)])
     right = fro2([[sum(AF[i][t] * XF[t][j] for t in range(n)) - (i == j) for j in range(n)] for i in range(n)])
     lim = C_INV * n * k * EPS
-    if not e1 <= Fraction(lim) ** 2 * ninv2: out.append(("accuracy", f"||X - M^-1|| / ||M^-1|| = {fsqrt(e1 / ninv2):.3g} exceeds {C_INV:g}*n*kappa*eps = {lim:.3g} (n={n}, kappa={k:.3g})"))
-    if not left <= Fraction(lim) ** 2: out.append(("left-residual", f"||X*M - 1|| = {fsqrt(left):.3g} exceeds {C_INV:g}*n*kappa*eps = {lim:.3g} (kappa={k:.3g})"))
-    if not right <= Fraction(lim * k) ** 2: out.append(("right-residual", f"||M*X - 1|| = {fsqrt(right):.3g} exceeds {C_INV:g}*n*kappa^2*eps = {lim * k:.3g} (kappa={k:.3g})"))
+    if not math.isfinite(lim * k): lim = None        # kappa beyond the double range (columns in units far apart): only the clauses below apply
+    if lim is None: pass
+    elif not e1 <= Fraction(lim) ** 2 * ninv2: out.append(("accuracy", f"||X - M^-1|| / ||M^-1|| = {fsqrt(e1 / ninv2):.3g} exceeds {C_INV:g}*n*kappa*eps = {lim:.3g} (n={n}, kappa={k:.3g})"))
+    if lim is not None and not left <= Fraction(lim) ** 2: out.append(("left-residual", f"||X*M - 1|| = {fsqrt(left):.3g} exceeds {C_INV:g}*n*kappa*eps = {lim:.3g} (kappa={k:.3g})"))
+    if lim is not None and not right <= Fraction(lim * k) ** 2: out.append(("right-residual", f"||M*X - 1|| = {fsqrt(right):.3g} exceeds {C_INV:g}*n*kappa^2*eps = {lim * k:.3g} (kappa={k:.3g})"))
+    if out or c.colspread <= COLUNIT_SPREAD: return out
+    # Columns in very different units (M = B*D, D = diag(2^c_j), spread above 2^40): kappa(M) is then dominated by D and the clauses
+    # above say little.  Multiplying a column by a power of two changes no comparison and no rounding of the elimination (as long as
+    # nothing leaves the double range: |c_j| <= 900 here), so Inverse(M) = D^-1 Inverse(B) digit by digit, and B - every column
+    # normalised to largest entry in [1/2, 1) - is a matrix of the quantifier itself: the three clauses are evaluated for (B, D*X)
+    # with kappa(B).  Skipped when an entry of the exact inverse lies outside 2^+-1000 (the premise 'nothing leaves the range').
+    xs = [abs(x) * pow2(-c.e) for row in inv for x in row if x != 0]
+    if not xs or max(xs) > pow2(1000) or min(xs) < pow2(-1000): return out
+    BF = [[AF[i][j] * pow2(-c.cs[j]) for j in range(n)] for i in range(n)]
+    invB = [[inv[i][j] * pow2(c.cs[i]) for j in range(n)] for i in range(n)]
+    XB = [[XF[i][j] * pow2(c.cs[i]) for j in range(n)] for i in range(n)]
+    kb = fsqrt(fro2(BF) * fro2(invB)); limb = C_INV * n * kb * EPS; nb2 = fro2(invB)
+    if not math.isfinite(limb * kb): return out
+    e1 = fro2([[XB[i][j] - invB[i][j] for j in range(n)] for i in range(n)])
+    left = fro2([[sum(XB[i][t] * BF[t][j] for t in range(n)) - (i == j) for j in range(n)] for i in range(n)])
+    right = fro2([[sum(BF[i][t] * XB[t][j] for t in range(n)) - (i == j) for j in range(n)] for i in range(n)])
+    note = f"columns in units 2^{[cj + c.e for cj in c.cs]}, taken out: n={n}, kappa={kb:.3g}"
+    if not e1 <= Fraction(limb) ** 2 * nb2: out.append(("accuracy", f"||X - M^-1|| / ||M^-1|| = {fsqrt(e1 / nb2):.3g} exceeds {C_INV:g}*n*kappa*eps = {limb:.3g} ({note})"))
+    if not left <= Fraction(limb) ** 2: out.append(("left-residual", f"||X*M - 1|| = {fsqrt(left):.3g} exceeds {C_INV:g}*n*kappa*eps = {limb:.3g} ({note})"))
+    if not right <= Fraction(limb * kb) ** 2: out.append(("right-residual", f"||M*X - 1|| = {fsqrt(right):.3g} exceeds {C_INV:g}*n*kappa^2*eps = {limb * kb:.3g} ({note})"))
     return out
 
 
